@@ -386,7 +386,8 @@ class C15(CheckBase):
             # templates of one class and the target passes every option in
             # which they differ
             ca_, cb_ = ta["config"], tb["config"]
-            if "file" not in ta and ta["cls"] == tb["cls"] and \
+            if name != "process_builtins" and \
+                    "file" not in ta and ta["cls"] == tb["cls"] and \
                     all(k in cb_ and cb_[k] is not None
                         for k in set(ca_) | set(cb_) if ca_.get(k) != cb_.get(k)) \
                     and ch.coin(0.35):
